@@ -22,12 +22,25 @@ let hex_of_big (b : n list) : string =
   String.concat "" (List.rev_map (fun d -> Printf.sprintf "%04x" (int_of_n d)) b)
 (* arbitrary-size N from a hex string *)
 let n_of_hex (s : string) : n =
-  let r = ref N0 in
-  String.iter (fun c -> r := N.add (N.mul !r (n_of_int 16)) (n_of_int (int_of_string ("0x" ^ String.make 1 c)))) s; !r
+  (* bits most significant first -> positive, linear *)
+  let bits = List.concat_map (fun c -> let v = int_of_string ("0x" ^ String.make 1 c) in [v lsr 3 land 1; v lsr 2 land 1; v lsr 1 land 1; v land 1])
+               (List.init (String.length s) (String.get s)) in
+  let rec strip = function 0 :: r -> strip r | l -> l in
+  match strip bits with
+  | [] -> N0
+  | _ :: rest -> Npos (List.fold_left (fun p b -> if b = 1 then XI p else XO p) XH rest)
 let hex_of_n (x : n) : string =
-  let rec go x acc = if x = N0 then acc else
-    go (N.div x (n_of_int 16)) (Printf.sprintf "%x" (int_of_n (N.modulo x (n_of_int 16))) ^ acc) in
-  let s = go x "" in if s = "" then "0" else s
+  (* linear in the number of bits: positive is its own list of bits, least significant first *)
+  let rec bits p acc = match p with XH -> 1 :: acc | XO q -> bits q (0 :: acc) | XI q -> bits q (1 :: acc) in
+  match x with N0 -> "0" | Npos p ->
+    let msb_first = bits p [] in
+    let len = List.length msb_first in
+    let padded = List.init ((4 - len mod 4) mod 4) (fun _ -> 0) @ msb_first in
+    let buf = Buffer.create (len / 4 + 2) in
+    let rec go = function
+      | a :: b :: c :: d :: r -> Buffer.add_string buf (Printf.sprintf "%x" (8 * a + 4 * b + 2 * c + d)); go r
+      | _ -> () in
+    go padded; Buffer.contents buf
 let pad_hex n s = let w = 4 * n in if String.length s >= w then String.sub s (String.length s - w) w else String.make (w - String.length s) '0' ^ s
 
 let res_str = function C10_Ok v -> hex_of_big v | C10_MathError -> "EXC MathError" | C10_OutOfFuel -> "OUTOFFUEL"
@@ -35,6 +48,34 @@ let res_str = function C10_Ok v -> hex_of_big v | C10_MathError -> "EXC MathErro
 let rec z_of_int i = if i = 0 then Z0 else if i > 0 then Zpos (pos_of_int i) else Zneg (pos_of_int (- i))
 let binop_of = function "add" -> Some OpAdd | "sub" -> Some OpSub | "mul" -> Some OpMul | "div" -> Some OpDiv | "mod" -> Some OpMod
   | "and" -> Some OpAnd | "or" -> Some OpOr | "xor" -> Some OpXor | _ -> None
+let n_of_dec (s : string) : n =
+  let r = ref N0 in
+  String.iter (fun c -> r := N.add (N.mul !r (n_of_int 10)) (n_of_int (Char.code c - 48))) s; !r
+let z_of_dec (s : string) : z =
+  if String.length s > 0 && s.[0] = '-' then (match n_of_dec (String.sub s 1 (String.length s - 1)) with N0 -> Z0 | Npos p -> Zneg p)
+  else (match n_of_dec s with N0 -> Z0 | Npos p -> Zpos p)
+let cmp_of = function "lt" -> CmpLt | "le" -> CmpLe | "gt" -> CmpGt | "ge" -> CmpGe | "eq" -> CmpEq | _ -> CmpNe
+let instr_of (tok : string) : c10_instr =
+  let f = Array.of_list (String.split_on_char ':' tok) in
+  let nat i = nat_of_int (int_of_string f.(i)) in
+  let bop i = (match binop_of f.(i) with Some o -> o | None -> failwith "op") in
+  match f.(0) with
+  | "C" -> C10_ICompound (bop 1, nat 2, nat 3)
+  | "B" -> C10_IBinary (bop 1, nat 2, nat 3, nat 4)
+  | "I" -> C10_IIncr (nat 1)
+  | "N" -> C10_INot (nat 1, nat 2)
+  | "L" -> C10_IShl (nat 1, nat 2, n_of_int (int_of_string f.(3)))
+  | "R" -> C10_IShr (nat 1, nat 2, n_of_int (int_of_string f.(3)))
+  | "A" | "M" | "K" | "X" -> C10_ICopy (nat 1, nat 2)
+  | "S" -> C10_ISwap (nat 1, nat 2)
+  | "U" -> C10_IBuiltinU (bop 1, nat 2, n_of_hex f.(3))
+  | "G" -> C10_IBuiltinS (bop 1, nat 2, z_of_dec f.(3))
+  | "V" -> C10_IBuiltinLeft (bop 1, nat 2, n_of_hex f.(3))
+  | "Q" -> C10_ICmp (cmp_of f.(1), nat 2, nat 3)
+  | "QU" | "QR" -> C10_ICmpU (cmp_of f.(1), nat 2, n_of_hex f.(3))
+  | _ -> failwith "instr"
+let ev_str l = String.concat "" (List.map (function C10_EvBool b -> if b then "1" else "0" | C10_EvMathError -> "M" | C10_EvException -> "X"
+                                                   | C10_EvOutOfFuel -> "F" | C10_EvOutOfBounds -> "O") l)
 let string_of_chars l = String.concat "" (List.map (fun c -> String.make 1 (char_of_ascii c)) l)
 let b01 b = if b then "1" else "0"
 let canon_me (m, e) = (* canonical m*2^e with m odd (or 0 0) *)
@@ -73,9 +114,11 @@ let () =
       | "eq" -> b01 (c10_eq (a ()) (b ())), b01 (c10_spec_cmp CmpEq (va ()) (vb ()))
       | "ne" -> b01 (c10_ne (a ()) (b ())), b01 (c10_spec_cmp CmpNe (va ()) (vb ()))
       | "assign" -> let x = n_of_hex t.(2) in hex_of_big (c10_assign nn x), pad_hex n (hex_of_n (N.modulo x (N.pow (n_of_int 2) (c10_spec_width nn))))
-      | "signed" -> let x = int_of_string t.(2) in
-          res_str (c10_ctor_signed nn (z_of_int x)),
-          (if x < 0 then "EXC Exception" else pad_hex n (hex_of_n (N.modulo (n_of_int x) (N.pow (n_of_int 2) (c10_spec_width nn)))))
+      | "signed" -> let x = z_of_dec t.(2) in
+          res_str (c10_ctor_signed nn x),
+          (match x with Zneg _ -> "EXC Exception"
+           | Z0 -> pad_hex n "0"
+           | Zpos p -> pad_hex n (hex_of_n (N.modulo (Npos p) (N.pow (n_of_int 2) (c10_spec_width nn)))))
       | "default" -> hex_of_big (c10_ctor_default nn), pad_hex n "0"
       | "limits" ->
           let l = c10_numeric_limits nn in
@@ -127,6 +170,15 @@ let () =
            | Some o -> res_str (c10_apply n2 fuel o x x),
                        (match c10_spec_binop nn o (c10_val x) (c10_val x) with Some v -> pad_hex n (hex_of_n v) | None -> "EXC MathError")
            | None -> "UNKNOWN-OP", "UNKNOWN-OP")
+      | "prog" ->
+          (* object histories: k prog r0,r1,r2 tok,tok,...  (see c10_instr); fuel 70000 >= every quotient the generator admits *)
+          let regs = List.map big_of_hex (String.split_on_char ',' t.(2)) in
+          let prog = List.map instr_of (String.split_on_char ',' t.(3)) in
+          let (rs, ev) = c10_run nn n2 (nat_of_int 70000) prog (regs, []) in
+          let (vs, sev) = c10_spec_run nn prog (List.map c10_val regs, []) in
+          String.concat "," (List.map hex_of_big rs) ^ " e=" ^ ev_str ev,
+          String.concat "," (List.map (fun v -> pad_hex n (hex_of_n v)) vs) ^ " e=" ^ ev_str sev
+      | "layout" -> string_of_int (2 * n) ^ " 1 1", string_of_int (2 * n) ^ " 1 1"
       | "hash" -> hex_of_n (c10_hash (a ())), "-"
       | "stream" ->
           (* os << std::hex << a << "|" << 255 << "|" << a : the first insertion leaves the stream in decimal *)
